@@ -285,17 +285,10 @@ theorem coherent_fresh (c : Lut K) : Coherent pre parse c (fresh c) :=
 theorem invalidate_coherent (c : Lut K) (s : RegState K) (h : Coherent pre parse c s) :
     Coherent pre parse c (invalidate cfg s) := by
   obtain ⟨hl, hc, hm⟩ := h
-  cases hp : cfg.purgeDerived <;> cases hcc : cfg.clearCache <;>
-    simp only [invalidate, hp, hcc, if_true, if_false, Bool.false_eq_true]
+  cases hp : cfg.purgeDerived <;>
+    simp only [invalidate, hp, if_true, if_false, Bool.false_eq_true]
   · exact ⟨hl, hc, fun _ d hd => by simp at hd⟩
-  · exact ⟨hl, fun q i hq => by simp at hq, fun _ d hd => by simp at hd⟩
   · refine ⟨⟨fun k _ => ?_, fun k hk => by simp at hk⟩, hc, fun _ d hd => by simp at hd⟩
-    rw [find?_eraseKeys]
-    by_cases hk : k ∈ s.derived
-    · simp [hk, (hl.der k hk).1]
-    · simp [hk, hl.plain k hk]
-  · refine ⟨⟨fun k _ => ?_, fun k hk => by simp at hk⟩, fun q i hq => by simp at hq,
-      fun _ d hd => by simp at hd⟩
     rw [find?_eraseKeys]
     by_cases hk : k ∈ s.derived
     · simp [hk, (hl.der k hk).1]
